@@ -36,19 +36,32 @@ TRUSTED = [
     '"rather than a crash" is judged on the runner\'s status (128+N = the forked child of robsd-exec died from signal N)',
     'C09\'s model of interpolate.c (Interp/InterpDefs.v) is reused for every argument',
     'tools/argvprobe.c (probe), harness/c06_exitstatus.c; a stopped (SIGSTOP/SIGTSTP/...) step is not exercised (the runner waits for it)',
+    'kernel limits taken as facts: MAX_ARG_STRLEN 131072 (an argument of that size makes execve fail: the model is told "execvp '
+    'fails"; a step name or environment string of that size cannot reach the runner at all), PATH_MAX 4096 for the command path; '
+    'the core-dump flag of a wait status is inferred from the core file the probe leaves; the environment handed to the command is '
+    'compared by the harness itself (signature environment-not-passed-through), not by an extracted oracle',
+    'CAP: the lane "view vs parsed configuration" skips configurations with quoted strings beyond about 4 KiB (sum of squared '
+    'lengths > 2 * 4097^2; the parser model of driver cf is quadratic in the length of a string: 64 KiB = 90 s); those cases still run '
+    'against the runner model and the oracles',
 ]
 
 KINDS = {"expected '{'": 'brace', "expected '}'": 'close', 'empty variable name': 'empty',
          'unknown variable': 'unknown', 'recursion too deep': 'deep'}
 MODES = ['robsd', 'robsd-cross', 'robsd-ports', 'robsd-regress', 'canvas']
+MAX_ARG_STRLEN = 131072                    # linux: 32 pages, per argv / environment string incl. the NUL
 STOP_SIGNALS = {19, 20, 21, 22}
 IGNORED_SIGNALS = {17, 18, 23, 28}          # default action: ignore / continue
 ALL_SIGNALS = [s for s in range(1, 65) if s not in STOP_SIGNALS]
 INTERESTING_EXITS = [0, 1, 2, 3, 64, 123, 124, 125, 126, 127, 128, 129, 137, 139, 143, 254, 255]
 
 
+def B(s):
+    """str -> bytes; raw bytes >= 0x80 travel through the JSON cases as lone surrogates (surrogateescape)"""
+    return s if isinstance(s, bytes) else s.encode('utf-8', 'surrogateescape')
+
+
 def H(s):
-    return (s if isinstance(s, bytes) else s.encode()).hex()
+    return B(s).hex()
 
 
 # ---- generators ---------------------------------------------------------------------------------
@@ -301,10 +314,462 @@ def gen_hook_case(rng):
             'probe': gen_probe(rng)}
 
 
+# ---- boundary SIZE / SHAPE classes ------------------------------------------------------------------
+# Where a generated field flows into code of this property:
+#   * every ARGUMENT of a step command: lexer buffer -> arena_strdup -> config_interpolate_str (arena buffer of 1 KiB that
+#     grows by doubling; the value of a referenced variable is rendered into a 128-byte buffer first) -> argv vector
+#     (VECTOR_ALLOC per element, grows by doubling) -> execvp;
+#   * the NUMBER of arguments (argv vector), of canvas steps / regress entries (steps vector, regress_no_parallel vector;
+#     config_canvas_after_parse appends "end" with VECTOR_RESERVE(.., 1)), of hook elements and -v options (robsd-hook);
+#   * step NAMES: compared with strcmp in find_step, passed on the runner's command line;
+#   * EXECDIR (environment) -> ${exec-dir} -> the script path argument; the command path itself -> execvp (PATH_MAX);
+#   * regress-timeout (int, x 60 / x 3600 with overflow check) -> alarm((unsigned int)timeout).
+# Cases use a compact notation that expand_case() unfolds just before a case is run (replay files stay small):
+#   "@FILL(n,text)@" in any string = text repeated and cut to exactly n characters; "@DEEP(n)@" = the probe linked at a
+#   path of exactly n bytes; "name_text" / "vs_text" instead of the hex fields; conf.steps_gen {n, name, args} (%d = index)
+#   with explicit steps inserted at their "at"; step.args_gen {n, arg}; conf.regress_gen {n, name, nopar_mod};
+#   conf.hook_gen {n, arg}; vs_gen {n, var}.
+LEN_B = [1, 127, 128, 129, 254, 255, 256, 1023, 1024, 1025, 2047, 2048, 2049, 4095, 4096, 4097, 8191, 8192, 8193, 65535, 65536,
+         131071, 131072]
+CNT_B = [1, 2, 15, 16, 17, 31, 32, 33, 63, 64, 65, 255, 256]
+STEPS_B = [1, 14, 15, 16, 17, 30, 31, 32, 33, 62, 63, 64, 65]
+IDX_B = [15, 16, 31, 32, 63, 64]
+NAME_B = [1, 254, 255, 256, 1023, 1024, 1025, 4095, 4096, 4097, 65535, 65536]
+PATH_B = [254, 255, 256, 1023, 1024, 1025, 4095, 4096, 4097]
+FILL_RE = re.compile(r'@FILL\((\d+),(.*?)\)@', re.S)
+
+
+def fill(n, text):
+    return (text * (n // len(text) + 1))[:n] if n > 0 else ''
+
+
+def F(n, text='y'):
+    return '@FILL(%d,%s)@' % (n, text)
+
+
+def expand_case(c):
+    def walk(x):
+        if isinstance(x, str):
+            return FILL_RE.sub(lambda m: fill(int(m.group(1)), m.group(2)), x) if '@FILL(' in x else x
+        if isinstance(x, list):
+            return [walk(y) for y in x]
+        if isinstance(x, dict):
+            return {k: walk(v) for k, v in x.items()}
+        return x
+    if not any(k in json.dumps(c) for k in ('@FILL(', '_gen"', '_text"', '"at"')):
+        return c
+    e = walk(c)
+    N = lambda s, i: s.replace('%d', str(i))
+    if 'name_text' in e:
+        e['name'] = H(e.pop('name_text'))
+    vs = [H(v) for v in e.pop('vs_text', [])]
+    g = e.pop('vs_gen', None)
+    if g:
+        vs = [H(N(g['var'], i)) for i in range(g['n'])] + vs
+    if vs or 'vs' in e or e.get('kind') == 'hook':
+        e['vs'] = e.get('vs', []) + vs
+    conf = e['conf']
+    g = conf.pop('steps_gen', None)
+    if g:
+        steps = [{'name': N(g['name'], i), 'args': [N(a, i) for a in g['args']], 'parallel': False} for i in range(g['n'])]
+        for s in conf.get('steps', []):
+            at = s.pop('at', None)
+            if at is None:
+                steps.append(s)
+            else:
+                steps.insert(at, s)
+        conf['steps'] = steps
+    for s in conf.get('steps', []):
+        s.pop('at', None)
+        g = s.pop('args_gen', None)
+        if g:
+            s['args'] = s['args'] + [N(g['arg'], i) for i in range(g['n'])]
+    g = conf.pop('regress_gen', None)
+    if g:
+        conf['regress'] = [[N(g['name'], i), bool(g.get('nopar_mod')) and i % g['nopar_mod'] == 0] for i in range(g['n'])] \
+            + conf.get('regress', [])
+    g = conf.pop('hook_gen', None)
+    if g:
+        conf['hook'] = (conf.get('hook') or []) + [N(g['arg'], i) for i in range(g['n'])]
+    return e
+
+
+def classes_of(c, p, exp_argv, dump):
+    """the boundary classes a case (expanded) falls into, read off the case itself - generated or from the corpus"""
+    out = set(c.get('tags', []))
+    conf = c['conf']
+    S = lambda s: len(B(subst(s, p)))
+    if c['kind'] == 'step':
+        name = bytes.fromhex(c['name'])
+        if len(name) in NAME_B[1:]:
+            out.add('requested step name of %d bytes' % len(name))
+        x = c.get('execdir')
+        if x and S(x) in LEN_B[4:]:
+            out.add('EXECDIR of %d bytes' % S(x))
+        if conf['mode'] == 'canvas':
+            steps = conf['steps']
+            if len(steps) in STEPS_B[1:]:
+                out.add('canvas steps: %d (+ end)' % len(steps))
+            idx = next((i for i, s in enumerate(steps) if B(s['name']) == name), None)
+            if idx is not None and len(steps) >= 14:
+                out.add('requested step is %s' % ('the FIRST of >= 14' if idx == 0 else 'the LAST of >= 14' if idx == len(steps) - 1
+                                                 else 'at index %d' % idx if idx in IDX_B else 'in the middle of >= 14'))
+            if idx is None and name == b'end' and len(steps) >= 14:
+                out.add('requested step is the appended "end" after >= 14 steps')
+            if idx is not None:
+                args = steps[idx]['args']
+                if len(args) in CNT_B[2:]:
+                    out.add('configured arguments: %d' % len(args))
+                for a in args:
+                    if S(a) in LEN_B[1:]:
+                        out.add('configured argument of %d bytes' % S(a))
+                    k = a.count('${')
+                    if k in (16, 17, 64, 65):
+                        out.add('argument made of %d references' % k)
+            if S(conf['canvas_name']) in LEN_B[1:]:
+                out.add('variable value of %d bytes' % S(conf['canvas_name']))
+            for v in conf.get('skip') or []:
+                if S(v) in LEN_B[1:]:
+                    out.add('list element value of %d bytes' % S(v))
+        elif conf['mode'] == 'robsd-regress':
+            n = len(conf.get('regress', []))
+            if n in CNT_B[2:]:
+                out.add('regress entries: %d' % n)
+            for nm, _ in conf.get('regress', []):
+                if len(B(nm)) in [238, 239, 240] + LEN_B[4:]:
+                    out.add('regress path of %d bytes' % len(B(nm)))
+            if conf.get('timeout') is not None and 'timeout_unit' in conf:
+                out.add('regress-timeout %d%s' % (conf['timeout'], conf['timeout_unit']))
+        if c['trace'] and c.get('xpos'):
+            out.add('-x position: ' + {1: 'first option', 2: 'between -m and -C', 3: 'glued to -m (-xm)', 4: 'last, then --'}[c['xpos']])
+        elif c.get('xpos') == 4:
+            out.add('-- before the step name')
+    else:
+        hook = conf.get('hook') or []
+        if len(hook) in CNT_B[2:]:
+            out.add('hook elements: %d' % len(hook))
+        for a in hook:
+            if S(a) in LEN_B[1:]:
+                out.add('hook element of %d bytes' % S(a))
+        if len(c['vs']) in CNT_B[2:]:
+            out.add('-v options: %d' % len(c['vs']))
+        for v in c['vs']:
+            b = bytes.fromhex(v)
+            k, _, val = b.partition(b'=')
+            if len(val) in LEN_B[1:]:
+                out.add('-v value of %d bytes' % len(val))
+            if len(k) in NAME_B[1:]:
+                out.add('-v name of %d bytes' % len(k))
+    if exp_argv is not None:
+        if len(exp_argv) in CNT_B[2:]:
+            out.add('rendered arguments: %d' % len(exp_argv))
+        for a in exp_argv[1:]:
+            if len(a) in LEN_B[1:]:
+                out.add('rendered argument of %d bytes' % len(a))
+        if len(exp_argv[0]) in PATH_B and b'/' in exp_argv[0]:
+            out.add('command path of %d bytes%s' % (len(exp_argv[0]), ' (PATH_MAX and beyond: the kernel refuses, ENAMETOOLONG)'
+                                                  if len(exp_argv[0]) >= 4096 else ''))
+    for k, v in (c.get('env_extra') or {}).items():
+        if len(B(v)) in LEN_B[1:] or len(B(k)) + len(B(v)) + 2 == MAX_ARG_STRLEN:
+            out.add('environment value of %d bytes' % len(B(v)))
+    pr = c['probe']
+    if pr.get('closefds'):
+        out.add('command closes stdin/stdout/stderr before it ends')
+    if pr.get('core'):
+        out.add('death by signal %d with the core-dump flag %s' % (pr['signal'], 'SET (core file written)' if p.get('core') else 'not set'))
+    return sorted(out)
+
+
+def b_canvas(steps, name_text, **kw):
+    conf = {'mode': 'canvas', 'canvas_name': kw.pop('canvas_name', 't'), 'keep': kw.pop('keep', None), 'skip': kw.pop('skip', None),
+            'hook': None, 'running': None, 'steps': steps}
+    conf.update(kw.pop('conf', {}))
+    c = {'kind': 'step', 'conf': conf, 'trace': kw.pop('trace', 0), 'name_text': name_text, 'execdir': kw.pop('execdir', None),
+         'probe': kw.pop('probe', {'exit': 0})}
+    c.update(kw)
+    return c
+
+
+def step(name, args, **kw):
+    s = {'name': name, 'args': args, 'parallel': False}
+    s.update(kw)
+    return s
+
+
+def b_arglen(n, text='y', pos=1, before=1, after=1):
+    """one configured argument of exactly n bytes, at position pos of the requested step's command; neighbours before and
+    after it in the same arena"""
+    args = ['@PROBE@'] + ['a%d' % i for i in range(before)]
+    args.insert(pos, F(n, text))
+    steps = [step('pre', ['@PROBE@', 'before', F(min(n, 2000), 'b')]), step('big', args + ['z'] * after), step('post', ['@PROBE@', 'after'])]
+    return b_canvas(steps, 'big')
+
+
+def b_rendered(how, n, k=16):
+    """arguments that INTERPOLATE to a given size"""
+    if how == 'var':            # the value of one referenced variable has n bytes
+        return b_canvas([step('s', ['@PROBE@', '${canvas-name}', 'x${canvas-name}'])], 's', canvas_name=F(n, 'v'))
+    if how == 'sum':            # literal text + a reference = exactly n bytes
+        return b_canvas([step('s', ['@PROBE@', F(n - n // 3, 'p') + '${canvas-name}', 'tail'])], 's', canvas_name=F(n // 3, 'v'))
+    if how == 'refs':           # one argument made of k references to a value of n bytes
+        return b_canvas([step('s', ['@PROBE@', '${canvas-name}' * k, '-${canvas-name}' * k])], 's', canvas_name=F(n, 'r'))
+    if how == 'list':           # a list variable of k elements of n bytes, rendered joined by blanks into one argument
+        return b_canvas([step('s', ['@PROBE@', '${skip}', 'end'])], 's', skip=[F(n, chr(97 + i % 26)) for i in range(k)])
+    raise ValueError(how)
+
+
+def b_nargs(n, empties=0, where='mid'):
+    """n configured elements (the command included) + `empties` elements that render empty and are dropped"""
+    s = step('many', ['@PROBE@'], args_gen={'n': n - 1, 'arg': 'a%d'})
+    c = b_canvas([step('pre', ['@PROBE@', 'p']), s, step('post', ['@PROBE@', 'q'])], 'many', skip=[])
+    if empties:
+        # before the command (the next element becomes the command) or right after it
+        s['args'] = ['${skip}'] * empties + ['@PROBE@'] if where == 'first' else ['@PROBE@'] + ['${skip}'] * empties
+    return c
+
+
+def b_nsteps(n, idx):
+    """n canvas steps k0..k<n-1>, each with its own argument; the requested one by index, 'end' or 'missing'"""
+    name = 'k%d' % idx if isinstance(idx, int) else {'end': 'end', 'missing': 'k%d' % n}[idx]
+    return b_canvas([], name, conf={'steps_gen': {'n': n, 'name': 'k%d', 'args': ['@PROBE@', 'i%d']}})
+
+
+NAME_FAMILIES = {
+    'prefix': ['ab', 'a', 'abc', 'abcd', 'abc d'],
+    'case': ['ab', 'AB', 'Ab', 'aB'],
+    'adjacent': ['ab', 'ac', 'aa', 'ab!', 'ab\x01', 'ab\x7f', 'ab\udc80', 'ab\udcff'],
+    'separator': ['a=b', 'a,b', 'a-b', 'a.b', 'a/b', 'a b', 'a\nb', 'a', 'b', 'a=', '=b', 'a=b=c', 'a,b,c', 'a-b-c', 'a.b.', 'a/b/', 'a b '],
+}
+NEAR_MISSES = {'prefix': ['abcde', '', 'ab '], 'case': ['aBc', 'A'], 'adjacent': ['ad', 'ab\x02', 'ab\udc81'],
+               'separator': ['a;b', 'a=c', 'a\tb', 'b=a', 'a  b']}
+
+
+def b_names(family, order, want):
+    """steps whose names are prefixes of each other / differ in case / are byte-adjacent / contain the separator characters,
+    in the given order; `want` = the requested name (one of them, or a near miss that must not be found)"""
+    steps = [step(nm, ['@PROBE@', 'i%d' % i, nm]) for i, nm in enumerate(order)]
+    c = b_canvas(steps, want)
+    c['tags'] = ['step names: %s family, requested %s' % (family, 'one of them' if want in order else 'a near miss')]
+    return c
+
+
+def b_namelen(n, want, first):
+    """three steps named with n-1, n and n+1 times the same byte (each a prefix of the next), in an order that puts a
+    wrong candidate FIRST; requested: the one of length n+want (want in -1, 0, 1)"""
+    lens = [n - 1, n, n + 1] if first == 'short' else [n + 1, n, n - 1]
+    steps = [step(F(k, 'n'), ['@PROBE@', 'len%d' % k]) for k in lens if k > 0]
+    c = b_canvas(steps, F(n + want, 'n'))
+    c['tags'] = ['step names of %d/%d/%d bytes, prefixes of each other, %s first' % (n - 1, n, n + 1, first)]
+    return c
+
+
+def b_bytes(lo, hi, split=False):
+    """every byte lo..hi in the arguments (but '"', which ends a string of the configuration language, and '$')"""
+    bs = [b for b in range(lo, hi + 1) if b not in (0x22, 0x24)]
+    txt = lambda l: bytes(l).decode('utf-8', 'surrogateescape')
+    args = [txt([b]) + 'x' for b in bs] if split else [txt(bs), 'x' + txt(bs) + 'x']
+    c = b_canvas([step('s', ['@PROBE@'] + args)], 's')
+    c['tags'] = ['arguments with every byte %d..%d%s' % (lo, hi, ', one byte per argument' if split else '')]
+    return c
+
+
+def b_execdir(n, mode, name='env'):
+    """script modes: EXECDIR of n bytes -> ${exec-dir} -> the script path handed to sh.  The script is an ARGUMENT of sh
+    (here the probe): the kernel's PATH_MAX does not apply to it, so 4096 and beyond are inside."""
+    conf = {'mode': mode, 'hook': None, 'running': None}
+    if mode == 'robsd-regress':
+        conf.update({'regress': [['bin/ls', False]], 'timeout': None})
+    return {'kind': 'step', 'conf': conf, 'trace': 0, 'name_text': name, 'execdir': '/' + F(n - 1, 'e'), 'probe': {'exit': 0}}
+
+
+def b_deep(n):
+    """canvas: the command path itself has n bytes (254..4095 exist; PATH_MAX = 4096 and beyond fail in the kernel with
+    ENAMETOOLONG before any lookup - class "outside" what can be started, the runner must say so and exit 1)"""
+    return b_canvas([step('s', ['@DEEP(%d)@' % n, 'x', '${canvas-name}'])], 's')
+
+
+def b_regress_n(n, idx, nopar_mod=3, name='t/r%d'):
+    """robsd-regress with n entries, every nopar_mod-th no-parallel (two passes over the list, a second vector)"""
+    conf = {'mode': 'robsd-regress', 'hook': None, 'running': None, 'timeout': None, 'regress_gen': {'n': n, 'name': name, 'nopar_mod': nopar_mod}}
+    want = name.replace('%d', str(idx)) if isinstance(idx, int) else idx
+    return {'kind': 'step', 'conf': conf, 'trace': 0, 'name_text': want, 'execdir': '@ROOT@/exec', 'probe': {'exit': 0}}
+
+
+def b_regress_path(n, nopar):
+    conf = {'mode': 'robsd-regress', 'hook': None, 'running': None, 'timeout': None,
+            'regress': [['bin/ls', False], [F(n, 'p/'), nopar], [F(n - 1, 'p/'), not nopar]]}
+    return {'kind': 'step', 'conf': conf, 'trace': 0, 'name_text': F(n, 'p/'), 'execdir': '@ROOT@/exec', 'probe': {'exit': 0}}
+
+
+def b_xpos(pos, trace=1):
+    c = b_canvas([step('s', ['@PROBE@', '${trace}', 'x'])], 's', trace=trace)
+    c['xpos'] = pos
+    return c
+
+
+def b_env(n):
+    """an environment string NAME=value of the runner with a value of n bytes (at most MAX_ARG_STRLEN - 1 with name and =)"""
+    c = b_canvas([step('s', ['@PROBE@', 'x'])], 's')
+    c['env_extra'] = {'C06ENV': F(n, 'E'), 'C06_SMALL': 'v'}
+    return c
+
+
+def b_timeout(t, unit, sleep, code=3):
+    """regress-timeout t<unit>, a command that sleeps `sleep` seconds and exits `code`"""
+    conf = {'mode': 'robsd-regress', 'hook': None, 'running': None, 'regress': [['bin/slow', False]], 'timeout': t, 'timeout_unit': unit}
+    return {'kind': 'step', 'conf': conf, 'trace': 0, 'name_text': 'bin/slow', 'execdir': '@ROOT@/exec', 'probe': {'sleep': sleep, 'exit': code}}
+
+
+def b_status(pr):
+    return b_canvas([step('s', ['@PROBE@', 'x'])], 's', probe=pr)
+
+
+def b_slow(rel_ms, kind, code):
+    """the forked child's setsid() delayed by handshake limit + rel_ms (limit read from the source when the case runs:
+    slow_rel); kind: intime (well below) | either (at the limit) | late"""
+    c = b_canvas([step('s', ['@PROBE@', 'x'])], 's', probe={'exit': code})
+    c['slow_rel'] = rel_ms
+    c['slow'] = kind
+    return c
+
+
+def b_hook(nhook=1, arglen=None, nvs=0, vlen=None, klen=None):
+    """robsd-hook: number / size of hook elements, number of -v options, size of a -v value / name"""
+    hook = ['@PROBE@']
+    vs = []
+    conf = {'mode': 'robsd-cross', 'hook': hook, 'running': None}
+    if arglen:
+        hook += [F(arglen, 'h'), 'x']
+    if vlen:
+        vs.append('big=' + F(vlen, 'V'))
+        hook += ['${big}', 'p${big}s']
+    if klen:
+        vs.append(F(klen, 'k') + '=named')
+        hook += ['${' + F(klen, 'k') + '}']
+    c = {'kind': 'hook', 'conf': conf, 'vs_text': vs, 'execdir': None, 'probe': {'exit': 0}}
+    if nhook > len(hook):
+        conf['hook_gen'] = {'n': nhook - len(hook), 'arg': 'h%d'}
+    if nvs:
+        c['vs_gen'] = {'n': nvs, 'var': 'w%d=val%d'}
+        hook += ['${w0}', '${w%d}' % (nvs - 1)]
+    return c
+
+
+def wpick(rng, values, big=65535, pbig=0.06):
+    """a boundary value; the expensive ones (>= big) rarely"""
+    small = [v for v in values if v < big]
+    large = [v for v in values if v >= big]
+    return rng.choice(large) if large and rng.random() < pbig else rng.choice(small)
+
+
+def gen_boundary_case(rng):
+    r = rng.random()
+    if r < 0.14:
+        n = wpick(rng, LEN_B)
+        before = rng.randint(0, 3)
+        return b_arglen(n, rng.choice(['y', 'ab ', "q'*", 'x=,-./', '\udc80\udcff', '\\']), rng.randint(1, before + 1), before, rng.randint(0, 2))
+    if r < 0.28:
+        how = rng.choice(['var', 'sum', 'refs', 'list'])
+        if how == 'refs':
+            return b_rendered(how, rng.choice([1, 8, 16, 63, 64, 128]), rng.choice([16, 17, 64, 65]))
+        if how == 'list':
+            return b_rendered(how, rng.choice([1, 127, 128, 255, 1023, 1024]), rng.choice([1, 2, 16, 17]))
+        return b_rendered(how, wpick(rng, [v for v in LEN_B if v <= 65536 and (how != 'sum' or v > 2)]))
+    if r < 0.38:
+        if rng.random() < 0.3:
+            return b_nargs(rng.choice([2, 16, 17, 32, 33]), rng.choice([1, 2, 15, 16, 17]), rng.choice(['first', 'mid']))
+        return b_nargs(wpick(rng, CNT_B, 255, 0.1))
+    if r < 0.52:
+        n = rng.choice(STEPS_B)
+        idx = rng.choice([0, n - 1, 'end', 'missing'] + [i for i in IDX_B if i < n] * 2)
+        return b_nsteps(n, idx)
+    if r < 0.64:
+        fam = rng.choice(sorted(NAME_FAMILIES))
+        order = list(NAME_FAMILIES[fam])
+        rng.shuffle(order)
+        order = order[:rng.randint(2, len(order))]
+        return b_names(fam, order, rng.choice(order) if rng.random() < 0.75 else rng.choice(NEAR_MISSES[fam]))
+    if r < 0.72:
+        return b_namelen(wpick(rng, NAME_B[1:], 65535, 0.05), rng.choice([-1, 0, 1]), rng.choice(['short', 'long']))
+    if r < 0.76:
+        lo = rng.choice([1, 32, 128])
+        return b_bytes(lo, {1: 31, 32: 127, 128: 255}[lo], rng.random() < 0.5)
+    if r < 0.82:
+        return b_execdir(wpick(rng, PATH_B + [65536], 65535, 0.05), rng.choice(MODES[:4]))
+    if r < 0.86:
+        return b_deep(rng.choice(PATH_B))
+    if r < 0.91:
+        if rng.random() < 0.5:
+            n = rng.choice([15, 16, 17, 31, 32, 33, 63, 64, 65])
+            return b_regress_n(n, rng.choice([0, n - 1, n // 2, 'end', 'umount', 'env']), rng.choice([0, 1, 2, 3]))
+        return b_regress_path(rng.choice([238, 239, 240, 254, 255, 256, 1023, 1024, 1025, 4095, 4096, 4097]), rng.random() < 0.5)
+    if r < 0.94:
+        return b_xpos(rng.randint(1, 4), rng.randint(0, 1))
+    if r < 0.96:
+        return b_env(wpick(rng, LEN_B[:-2] + [MAX_ARG_STRLEN - 8], 65535, 0.1))
+    q = rng.random()
+    if q < 0.3:
+        return b_hook(nhook=wpick(rng, CNT_B, 255, 0.1))
+    if q < 0.55:
+        return b_hook(arglen=wpick(rng, LEN_B[:-1]))
+    if q < 0.75:
+        return b_hook(nvs=wpick(rng, CNT_B, 255, 0.1))
+    if q < 0.9:
+        return b_hook(vlen=wpick(rng, LEN_B[:-1]))
+    return b_hook(klen=rng.choice(NAME_B[1:10]))
+
+
+def gen_status_case(rng):
+    """exit status classes beyond the pool of run(): core-dump flag, closed descriptors, timeout values"""
+    r = rng.random()
+    if r < 0.3:
+        return b_status({'signal': rng.choice([3, 4, 5, 6, 7, 8, 11, 24, 25, 31]), 'exit': 0, 'core': 1})
+    if r < 0.5:
+        pr = gen_probe(rng)
+        pr['closefds'] = 1
+        return b_status(pr)
+    t, unit = rng.choice([(0, 's'), (0, 'h'), (2147483647, 's'), (35791394, 'm'), (596523, 'h'), (65536, 's'), (65537, 's'), (1092, 'm'),
+                          (4, 's'), (1, 'm'), (1, 'h')])
+    return b_timeout(t, unit, 2, rng.choice([0, 3, 255]))
+
+
+def gen_slow_classes(rng, below, at):
+    out = []
+    for _ in range(below):
+        out.append(b_slow(rng.choice([-700, -600, -500]), 'intime', rng.choice([0, 0, 3, 255])))
+    for _ in range(at):
+        # at or below the limit only commands that fail: either reading passes their status through
+        rel = rng.choice([-50, 0, 50, 250])
+        out.append(b_slow(rel, 'either', rng.choice([3, 255]) if rel <= 0 else rng.choice([0, 0, 7])))
+    return out
+
+
 # ---- configuration file + abstract view ----------------------------------------------------------
 
+DEEP_RE = re.compile(r'@DEEP\((\d+)\)@')
+
+
+def deep_path(root, n):
+    """a path of exactly n bytes below <root> that ends in /argvprobe (components of at most 255 bytes)"""
+    tail = '/argvprobe'
+    left = n - len(root) - len(tail)
+    if left < 0 or left == 1:
+        return None
+    out = root
+    while left > 0:
+        k = min(left - 1, 255)
+        if left - 1 - k == 1:          # never leave a lone '/' for the next round
+            k -= 1
+        out += '/' + 'd' * k
+        left -= k + 1
+    return out + tail
+
+
 def subst(s, paths):
-    return s.replace('@PROBE@', paths['probe']).replace('@BIN@', paths['bin']).replace('@ROOT@', paths['root'])
+    s = s.replace('@PROBE@', paths['probe']).replace('@BIN@', paths['bin']).replace('@ROOT@', paths['root'])
+    if '@DEEP(' in s:
+        s = DEEP_RE.sub(lambda m: deep_path(paths['root'], int(m.group(1))) or '/nonexistent/too-short', s)
+    return s
 
 
 def q(s):
@@ -365,9 +830,12 @@ def cfg_view(case, paths, machine):
         vars_.append(('hook', ' '.join(hook)))
     regress_toks, canvas_toks = ['0'], ['0']
     if mode == 'robsd-regress':
-        if conf.get('timeout'):
-            lines.append('regress-timeout %ds' % conf['timeout'])
-            vars_.append(('regress-timeout', str(conf['timeout'])))
+        if conf.get('timeout') or (conf.get('timeout') == 0 and 'timeout_unit' in conf):
+            # boundary classes: the value with a unit s / m / h (config_parse_regress_timeout multiplies, checked for int32
+            # overflow); 0 is written only when a unit is given (older cases carry timeout None / 0 for "not configured")
+            unit = conf.get('timeout_unit', 's')
+            lines.append('regress-timeout %d%s' % (conf['timeout'], unit))
+            vars_.append(('regress-timeout', str(conf['timeout'] * {'s': 1, 'm': 60, 'h': 3600}[unit])))
         regress_toks = [str(len(conf['regress']))]
         # no-parallel is stored as the variable regress-<path>-parallel: it belongs to the PATH, whichever of the
         # entries of that path carries it (is_parallel looks the variable up by name), so a path written twice runs
@@ -414,6 +882,12 @@ def case_ok(case):
     except ValueError:
         return False
     if b'\0' in name or name.startswith(b'-'):
+        return False
+    # KERNEL LIMIT: the runner itself cannot be started with an argument or environment string of MAX_ARG_STRLEN bytes
+    if len(name) + 1 > MAX_ARG_STRLEN or any(len(B(k)) + len(B(v)) + 2 > MAX_ARG_STRLEN for k, v in (case.get('env_extra') or {}).items()):
+        return False
+    x = case.get('execdir')
+    if x is not None and len(B(x)) + len('EXECDIR=') + 200 > MAX_ARG_STRLEN:
         return False
     for v in case.get('vs', []):
         if b'\0' in bytes.fromhex(v):
@@ -475,10 +949,16 @@ class World:
         p = self.paths(self.n)
         os.makedirs(p['root'])
         os.link(self.probe, os.path.join(p['root'], 'argvprobe'))
+        # a command given as @DEEP(n)@: the probe linked at a path of exactly n bytes (only a path below PATH_MAX can exist)
+        for m in DEEP_RE.finditer(json.dumps(case)):
+            dp = deep_path(p['root'], int(m.group(1)))
+            if dp is not None and len(dp) < 4096 and not os.path.exists(dp):
+                os.makedirs(os.path.dirname(dp), exist_ok=True)
+                os.link(self.probe, dp)
         text, toks, lexable = cfg_view(case, p, self.machine)
-        open(p['conf'], 'w', newline='').write(text)
+        open(p['conf'], 'wb').write(B(text))
         if case['conf'].get('running') is not None:
-            open(os.path.join(p['root'], '.running'), 'w').write(subst(case['conf']['running'], p) + '\n')
+            open(os.path.join(p['root'], '.running'), 'wb').write(B(subst(case['conf']['running'], p) + '\n'))
         return p, toks, lexable
 
     def env(self, case, p):
@@ -492,17 +972,39 @@ class World:
             e['ARGVPROBE_SIGNAL'] = str(pr['signal'])
         if 'timeout' in pr:
             e['ARGVPROBE_SLEEP'] = '30'
+        if 'sleep' in pr:
+            e['ARGVPROBE_SLEEP'] = str(pr['sleep'])
+        if pr.get('closefds'):
+            e['ARGVPROBE_CLOSEFDS'] = '1'
+        if pr.get('core'):
+            e['ARGVPROBE_CORE'] = '1'
         if case.get('slow_ms'):
             e['LD_PRELOAD'] = self.delay_so
             e['ARGVDELAY_SETSID_MS'] = str(case['slow_ms'])
-        return e
+        if case.get('env_extra'):
+            # boundary class: environment strings of the given sizes must reach the command unchanged
+            e.update(case['env_extra'])
+            e['ARGVPROBE_ENVOUT'] = p['dump'] + '.env'
+        return {B(k): B(v) for k, v in e.items()}
 
     def run(self, case, p):
         conf = case['conf']
         if case['kind'] == 'step':
             args = [os.path.join(self.impl, 'robsd-exec'), '-m', conf['mode'], '-C', p['conf']]
+            xpos = case.get('xpos', 0)
             if case['trace']:
-                args.append('-x')
+                # boundary class: where the trace flag stands among the options (getopt): last (default), first, between
+                # -m and -C, glued to -m ("-xm"), last and followed by "--"
+                if xpos == 1:
+                    args.insert(1, '-x')
+                elif xpos == 2:
+                    args.insert(3, '-x')
+                elif xpos == 3:
+                    args[1:3] = ['-xm', conf['mode']]
+                else:
+                    args.append('-x')
+            if xpos == 4:
+                args.append('--')
             args.append(bytes.fromhex(case['name']))
         else:
             args = [os.path.join(self.impl, 'robsd-hook'), '-m', conf['mode'], '-C', p['conf']]
@@ -534,6 +1036,11 @@ class World:
         if os.path.exists(p['dump']):
             raw = open(p['dump'], 'rb').read()
             dump = raw.split(b'\0')[:-1] if raw.endswith(b'\0') else None
+        # the command left a core file in its working directory: the wait status carried the core-dump flag (0x80)
+        p['core'] = any(f.startswith('core') for f in os.listdir(p['dir']))
+        p['envdump'] = None
+        if os.path.exists(p['dump'] + '.env'):
+            p['envdump'] = open(p['dump'] + '.env', 'rb').read().split(b'\0')[:-1]
         return rc, out, err, dump
 
 
@@ -570,7 +1077,7 @@ def classify_stderr(err, prog):
             out.append('separator')
         elif re.match(r"^variable '.*' cannot be defined$", msg, re.S):
             out.append('reserved')
-        elif re.search(r': (No such file or directory|Permission denied|Not a directory|Exec format error|Bad address|Is a directory|File name too long)$', msg, re.S):
+        elif re.search(r': (No such file or directory|Permission denied|Not a directory|Exec format error|Bad address|Is a directory|File name too long|Argument list too long)$', msg, re.S):
             out.append('exec')
         else:
             out.append('other')
@@ -602,20 +1109,61 @@ def argv_tokens(a):
     return 'n' if a is None else ' '.join([str(len(a))] + [hexs(x) for x in a])
 
 
-def kernel_for(case, target):
+def effective_timeout(case):
+    conf = case['conf']
+    if conf['mode'] != 'robsd-regress' or not conf.get('timeout'):
+        return 0
+    return conf['timeout'] * {'s': 1, 'm': 60, 'h': 3600}[conf.get('timeout_unit', 's')]
+
+
+def kernel_for(case, target, core=False):
     """(KX token for the oracle, kern token and gotsig for the model's run)"""
     pr = case['probe']
     if target == 'noexec':
         return 'x', 'x', 0
     if 'timeout' in pr:
         return 't', 'w15', 14             # the step is killed by the runner's SIGTERM after SIGALRM
+    if 'sleep' in pr and 0 < effective_timeout(case) < pr['sleep']:
+        return 't', 'w15', 14             # (generated with a margin of a second or more on either side)
     if 'signal' in pr and pr['signal'] not in IGNORED_SIGNALS:
-        return 's%d' % pr['signal'], 'w%d' % pr['signal'], 0
+        # a core file was written: the wait status carries the core-dump flag
+        return 's%d' % pr['signal'], 'w%d' % (pr['signal'] + (128 if core else 0)), 0
     c = pr.get('exit', 0)
     return 'e%d' % c, 'w%d' % (c * 256), 0
 
 
-def check_view(w, cases, prepared, a1, res):
+VIEW_COST_CAP = 2 * 4097 ** 2
+
+
+def view_cost(text, others=()):
+    """the parser model of C08/C10 (driver cf) appends to its token buffer at the END of a list: quadratic in the length of a
+    quoted string (measured: one string of 8 KiB 0.3 s per round, 16 KiB 1.6 s, 64 KiB 90 s, 128 KiB 8 min; two rounds
+    per case).  The lane "view vs parsed configuration" is therefore CAPPED at configurations whose quoted strings have
+    a sum of squared lengths of at most 2 * 8193^2; the larger classes are still run against the runner model and the
+    oracles (driver av is linear: 128 KiB in 0.2 s), only this cross-check of the hand-built view is left out for them."""
+    return sum(len(m) ** 2 for m in re.findall(rb'"([^"]*)"', text)) + sum(n ** 2 for n in others)
+
+
+def run_driver_par(drv, lines, k=8):
+    """common.run_driver over k processes: contiguous chunks of about equal weight (the 64 / 128 KiB classes make a few
+    lines a thousand times heavier than the rest); answers in the order of the questions"""
+    if len(lines) < 4 * k:
+        return common.run_driver(drv, lines)
+    total = sum(len(l) + 2000 for l in lines)
+    chunks, cur, acc = [], [], 0
+    for l in lines:
+        cur.append(l)
+        acc += len(l) + 2000
+        if acc >= total / k and len(chunks) < k - 1:
+            chunks.append(cur)
+            cur, acc = [], 0
+    if cur:
+        chunks.append(cur)
+    with ThreadPoolExecutor(k) as ex:
+        return [a for part in ex.map(lambda c: common.run_driver(drv, c), chunks) for a in part]
+
+
+def check_view(w, cases, prepared, a1, res, src=None):
     """the view the harness builds by hand (cfg_view) against what the parser model of C08/C10 makes of the same file:
     `resolve` of driver cf on the configuration text must give the vector `expect` of driver av gives on the view"""
     qs, envcases, idx = [], [], []
@@ -623,8 +1171,11 @@ def check_view(w, cases, prepared, a1, res):
         if c['kind'] != 'step' or not lexable:
             continue
         text = open(p['conf'], 'rb').read()
+        if view_cost(text, (len(c['name']) // 2, len(subst(c.get('execdir') or '', p)))) > VIEW_COST_CAP:
+            res.count('view vs parsed configuration: CAPPED (a quoted string beyond ~8 KiB: the parser model is quadratic)')
+            continue
         x = c.get('execdir')
-        envcases.append({'execdir': None if x is None else subst(x, p).encode().hex()})
+        envcases.append({'execdir': None if x is None else H(subst(x, p))})
         qs.append((len(envcases) - 1, ['resolve', c['conf']['mode'], hexs(text), str(c['trace']), c['name'] or '-']))
         idx.append(i)
     if not qs:
@@ -636,13 +1187,20 @@ def check_view(w, cases, prepared, a1, res):
         res.count('view vs parsed configuration: ' + ('agree' if a == want else 'DIFFER'))
         res.extra['view_checked'] = res.extra.get('view_checked', 0) + 1
         if a != want:
-            res.disagreements.append({'case': cases[i], 'what': 'the hand-built configuration view and the parsed configuration file resolve differently',
+            res.disagreements.append({'case': (src or cases)[i], 'what': 'the hand-built configuration view and the parsed configuration file resolve differently',
                                       'model': 'view: ' + view[:200], 'impl': 'parsed text (model of C08/C10): ' + a[:200]})
 
 
 def evaluate(ctx, cases, res, world=None):
     w = world or World(ctx)
-    cases = [c for c in cases if case_ok(c)]
+    # cases arrive in the compact notation (@FILL(n,text)@, steps_gen, ...): `src` is what is reported and replayed,
+    # `cases` what is run
+    src = [c for c in cases if case_ok(expand_case(c))]
+    cases = [expand_case(c) for c in src]
+    for i, c in enumerate(cases):
+        if 'slow_rel' in c:
+            # delay relative to the time step_fork waits for the group (read from the source)
+            cases[i] = dict(c, slow_ms=max(1, w.handshake_ms + c['slow_rel']))
     prepared = [w.prepare(c) for c in cases]
     with ThreadPoolExecutor(16) as ex:
         obs = list(ex.map(lambda cp: w.run(cp[0], cp[1][0]), zip(cases, prepared)))
@@ -653,35 +1211,52 @@ def evaluate(ctx, cases, res, world=None):
             q1.append(' '.join(['expect', str(c['trace']), c['name'] or '-'] + toks))
         else:
             q1.append(' '.join(['xhook', str(len(c['vs']))] + [v or '-' for v in c['vs']] + toks))
-    a1 = common.run_driver(w.drv, q1)
-    check_view(w, cases, prepared, a1, res)
-    q2, meta = [], []
+    a1 = run_driver_par(w.drv, q1)
+    check_view(w, cases, prepared, a1, res, src)
+    q2, meta, alt = [], [], {}
     for c, (p, toks, _), a, (rc, out, err, dump) in zip(cases, prepared, a1, obs):
         t = a.split()
         exp_argv = None
         if t and t[0] == 'R' and int(t[1]) > 0:
             exp_argv = [common.unhex(x) for x in t[2:]]
         target = exec_target(exp_argv[0] if exp_argv else None, w)
-        kx, kern, gotsig = kernel_for(c, target)
+        if exp_argv and any(len(x) + 1 > MAX_ARG_STRLEN for x in exp_argv):
+            # KERNEL LIMIT (class "outside" what a command can be handed): execve refuses a single argument string of
+            # MAX_ARG_STRLEN (32 pages) bytes or more incl. the NUL with E2BIG - the model is told "execvp fails"
+            target = 'noexec'
+            res.count('class: rendered argument at MAX_ARG_STRLEN (131072 with the NUL): execve fails with E2BIG')
+        kx, kern, gotsig = kernel_for(c, target, p.get('core', False))
         if c['kind'] == 'step' and a == 'R 0':
             # nothing is left of the command: the child calls execvp(NULL, {NULL}); the kernel function of the model
             # answers what this platform was measured to do (tools/argvnullexec.c)
             kern = w.nullexec
         meta.append((exp_argv, target, kx))
         if c['kind'] == 'step':
-            if c.get('slow_ms'):
+            late_line = ' '.join(['runfork', 'c', str(c['trace']), c['name'] or '-', kern, str(gotsig),
+                                  'lateintr' if c.get('term_ms') else 'late'] + toks)
+            if c.get('slow_ms') and c.get('slow') == 'intime':
+                # the child is delayed, but clearly less than step_fork waits: nothing special may happen
+                q2.append(' '.join(['run', 'c', str(c['trace']), c['name'] or '-', kern, str(gotsig)] + toks))
+            elif c.get('slow_ms') and c.get('slow') == 'either':
+                # the delay is AT the limit (within the jitter of 1000 x usleep(1 ms)): the runner must do what the model
+                # does for a handshake in time or what it does for a late one - nothing else
+                q2.append(' '.join(['run', 'c', str(c['trace']), c['name'] or '-', kern, str(gotsig)] + toks))
+                alt[len(meta) - 1] = late_line
+            elif c.get('slow_ms'):
                 # the child reaches setsid() only after the parent has given up on the handshake
-                q2.append(' '.join(['runfork', 'c', str(c['trace']), c['name'] or '-', kern, str(gotsig),
-                                    'lateintr' if c.get('term_ms') else 'late'] + toks))
+                q2.append(late_line)
             else:
                 q2.append(' '.join(['run', 'c', str(c['trace']), c['name'] or '-', kern, str(gotsig)] + toks))
             q2.append(' '.join(['okstep', str(c['trace']), c['name'] or '-', kx] + obs_tokens(dump, rc, err) + toks))
         else:
             q2.append(' '.join(['hook', str(len(c['vs']))] + [v or '-' for v in c['vs']] + ['1' if target == 'probe' else '0'] + toks))
             q2.append(' '.join(['okhook', str(len(c['vs']))] + [v or '-' for v in c['vs']] + [kx] + obs_tokens(dump, rc, err) + toks))
-    a2 = common.run_driver(w.drv, q2)
+    alt_i = sorted(alt)
+    a2 = run_driver_par(w.drv, q2 + [alt[i] for i in alt_i])
+    alt_ans = dict(zip(alt_i, a2[len(q2):]))
     for i, (c, (p, toks, lexable), (rc, out, err, dump), (exp_argv, target, kx)) in enumerate(zip(cases, prepared, obs, meta)):
         res.evaluations += 1
+        c0 = src[i]
         model, ok = a2[2 * i], a2[2 * i + 1]
         if c['kind'] == 'step' and kx == 'x' and model.startswith('E ') and not model.startswith('E n '):
             # execvp failed in the child: the vector was built but no command ever saw it
@@ -723,17 +1298,39 @@ def evaluate(ctx, cases, res, world=None):
             elif kx[0] == 'e':
                 res.extra.setdefault('exit_codes_passed', set()).add(int(kx[1:]))
         if nontrivial(c):
-            res.nontrivial.add(hashlib.sha1(json.dumps(c, sort_keys=True).encode()).hexdigest())
+            res.nontrivial.add(hashlib.sha1(json.dumps(c0, sort_keys=True).encode()).hexdigest())
+        for k in classes_of(c, p, exp_argv, dump):
+            res.count('class: ' + k)
+        late = bool(c.get('slow_ms')) and c.get('slow') != 'intime'
+        if i in alt_ans:
+            # delay at the limit: either model answer is right; which one it was decides how the case is read below
+            late = model != impl_s and alt_ans[i] == impl_s
+            res.count('class: setsid delayed AT the handshake limit (%d ms of %d): the runner %s' % (
+                c['slow_ms'], w.handshake_ms, 'gave up' if late else 'saw the group in time' if model == impl_s else 'did NEITHER'))
+            if late:
+                model = alt_ans[i]
+        elif c.get('slow') == 'intime':
+            res.count('class: setsid delayed below the handshake limit (%d ms of %d)' % (c['slow_ms'], w.handshake_ms))
         if model != impl_s:
-            res.disagreements.append({'case': c, 'model': model, 'impl': impl_s, 'stderr': err[-300:].decode('latin1')})
-        if c.get('slow_ms'):
+            res.disagreements.append({'case': c0, 'model': model, 'impl': impl_s, 'stderr': err[-300:].decode('latin1')})
+        if late:
             res.count('step: fork handshake timed out (setsid delayed %d ms) kx=%s' % (c['slow_ms'], kx[0]))
             res.extra['handshake_cases'] = res.extra.get('handshake_cases', 0) + 1
+        if c.get('env_extra') and dump is not None:
+            # model-independent: the runner hands its own environment to the command, unchanged (the property's "and
+            # nothing else"; observe_at: "argv/environment dumped by a probe")
+            want = sorted(k + b'=' + v for k, v in w.env(c, p).items())
+            if p['envdump'] is None or sorted(p['envdump']) != want:
+                got = p['envdump'] or []
+                res.oracle_failures.append({'case': c0, 'signature': 'environment-not-passed-through',
+                                            'what': 'the command saw %d environment strings, the runner was started with %d; first '
+                                                    'difference: %r' % (len(got), len(want), sorted(set(got) ^ set(want))[:1]),
+                                            'impl': impl_s})
         if empty_cmd and c['kind'] == 'step' and rc >= 128 and 'exited:%d' % rc in classes:
             # the literal reading of "rather than a crash" (theorem C06_empty_argv_no_crash_refuted): nothing could be
             # started, and the outcome is the death of robsd-exec's own forked child from signal rc-128, reported only
             # as "process group exited <rc>"
-            res.oracle_failures.append({'case': c, 'signature': 'empty-command-child-crashes',
+            res.oracle_failures.append({'case': c0, 'signature': 'empty-command-child-crashes',
                                         'what': 'every element of the command of the step renders empty: the forked child of robsd-exec '
                                                 'calls execvp(NULL, ...) and dies from signal %d (glibc); robsd-exec exits %d and names no '
                                                 'reason ("process group exited %d")' % (rc - 128, rc, rc),
@@ -746,7 +1343,7 @@ def evaluate(ctx, cases, res, world=None):
             res.count('outside: SIGTERM sent to the runner on the "process group failure" path (model compared, oracle not applied)')
         elif ok != '1':
             sig, what = classify_failure(c, rc, dump, err, exp_argv, kx, a1[i])
-            f = {'case': c, 'signature': sig, 'what': what, 'impl': impl_s, 'expected': a1[i], 'stderr': err[-300:].decode('latin1')}
+            f = {'case': c0, 'signature': sig, 'what': what, 'impl': impl_s, 'expected': a1[i], 'stderr': err[-300:].decode('latin1')}
             # KNOWN FINDING handshake-timeout-masks-exit-zero, recognised by a predicate on the CASE: the shim delayed the
             # child's setsid() beyond the time step_fork waits for it (read from the source) AND the command was arranged
             # to exit 0 - plus the exact shape the theorem C06_exit_zero_iff_refuted_handshake predicts (the command ran
@@ -764,7 +1361,7 @@ def evaluate(ctx, cases, res, world=None):
             pr = c['probe']
             want = -pr['signal'] if ('signal' in pr and pr['signal'] not in IGNORED_SIGNALS) else pr.get('exit', 0)
             if rc != want:
-                res.oracle_failures.append({'case': c, 'signature': 'hook-status-not-the-commands',
+                res.oracle_failures.append({'case': c0, 'signature': 'hook-status-not-the-commands',
                                             'what': 'robsd-hook ended with %d, the command with %d' % (rc, want), 'impl': impl_s})
     return w
 
@@ -845,7 +1442,11 @@ def load_corpus():
     files = sorted(glob.glob(os.path.join(d, '*.json')))
     if not files:
         raise common.BuildFailure('corpus/C06 is missing or empty: the cases of the repaired and known findings would not run')
-    return [json.load(open(p)) for p in files]
+    out = []
+    for p in files:
+        x = json.load(open(p))
+        out += x if isinstance(x, list) else [x]         # b06_<class>.json: one list per class family
+    return out
 
 
 def run(ctx, n=None, exits_all=None):
@@ -862,6 +1463,18 @@ def run(ctx, n=None, exits_all=None):
                 'also resolved by the parser model of C08/C10 on the configuration FILE and compared with the hand-built view.  '
                 'robsd-hook: all five modes, hook unset / empty / 1-6 '
                 'elements, -v variables (empty, spaces, =, nested, failing, missing separator, reserved, shadowing defaults).  '
+                'BOUNDARY CLASSES (generated with small probability + one corpus case per value, counted as "class: ..."): configured and '
+                'rendered argument lengths 1, 127-129, 254-256, 1023-1025, 2047-2049, 4095-4097, 8191-8193, 65535/65536, 131071 and 131072 '
+                '(MAX_ARG_STRLEN: execve fails, E2BIG); variable values and list elements of those sizes, arguments of 16/17/64/65 '
+                'references; 1, 2, 15-17, 31-33, 63-65, 255/256 arguments (also after dropping empty ones), 1, 14-17, 30-33, 62-65 canvas '
+                'steps with the requested one first / last / at 15, 16, 31, 32, 63, 64 / the appended end / missing, 15-17 ... 63-65, 256 '
+                'regress entries; step names that are prefixes of each other, differ in case, are byte-adjacent, contain = , - . / blank '
+                'newline, names of 254-256, 1023-1025, 4095-4097, 65535/65536 bytes that are prefixes of each other; regress paths of '
+                '238-240 ... 4097 bytes; every byte 1..255 in arguments; EXECDIR of 254 ... 4097, 65536 bytes; a command path of '
+                '254 ... 4095 bytes and 4096/4097 (PATH_MAX: ENAMETOOLONG); environment strings up to MAX_ARG_STRLEN - 1 handed through; '
+                'position of -x; core-dump flag, closed descriptors; regress-timeout 0, 2^31-1 s, the largest m / h values, 257 / 65536 / '
+                '65537 s against a 2 s command; setsid delayed below / at / above the handshake limit; robsd-hook with 1 ... 256 elements '
+                'and -v options, elements / values / names up to 64 KiB.  '
                 'non-trivial = the command of the case contains a reference, a blank or a glob character (script modes: always); '
                 'distinct by content hash')
     w = World(ctx)
@@ -888,6 +1501,12 @@ def run(ctx, n=None, exits_all=None):
         cases.append(gen_slow_term_case(rng))
     for _ in range(max(60, n // 2)):
         cases.append(gen_hook_case(rng))
+    # boundary size / shape classes (one deterministic case per class value is in corpus/C06/b06_*.json)
+    for _ in range(ctx.budget(70, 3000)):
+        cases.append(gen_boundary_case(rng))
+    for _ in range(ctx.budget(6, 60)):
+        cases.append(gen_status_case(rng))
+    cases += gen_slow_classes(rng, ctx.budget(2, 8), ctx.budget(3, 12))
     res.samples = [c for c in cases if c['kind'] == 'step'][1:3] + [c for c in cases if c['kind'] == 'hook'][:1]
     for i in range(0, len(cases), 2000):
         evaluate(ctx, cases[i:i + 2000], res, world=w)
@@ -909,6 +1528,14 @@ def extended_search(ctx, res, proof):
 
 
 def replay(ctx, rep):
+    if isinstance(rep, list):          # a corpus file with one case per class value
+        res = common.Result()
+        evaluate(ctx, rep, res)
+        print('cases: %d, disagreements: %s' % (len(rep), json.dumps(res.disagreements, indent=1)[:3000]))
+        print('oracle failures:', json.dumps([(f['signature'], f['what']) for f in res.oracle_failures], indent=1)[:3000])
+        print('classes:', json.dumps({k: v for k, v in res.distribution.items() if k.startswith('class: ')}, indent=1))
+        return 1 if (res.disagreements or res.tie_errors or
+                     [f for f in res.oracle_failures if not common.match_known(ctx.pid, f.get('signature'))]) else 0
     case = rep.get('case') or (rep.get('first_disagreements') or [{}])[0].get('case') or (rep if 'kind' in rep else None)
     if case is None:
         print(json.dumps(rep, indent=1)[:3000])
